@@ -204,6 +204,18 @@ func c08Judge(c c08Cfg, w *c08World, r c08Result) (string, string) {
 	if r.err != nil && len(r.hosts) > 0 {
 		return "error-with-hosts", r.err.Error()
 	}
+	if r.err != nil && limit > 0 {
+		// an error is returned only when no host could be provided: if an eligible host completed
+		// the whitelist for the requester, the request must not fail
+		for h := range r.acked {
+			if i, ok := byID[h]; ok {
+				v := c08Vars[c.pop[i]]
+				if v.host && v.fresh && v.connected && !v.peer && (c.kind == "" || v.kind == c.kind) {
+					return "error-although-host-acknowledged", fmt.Sprintf("%s acknowledged the whitelist, yet the request failed: %v", v.name, r.err)
+				}
+			}
+		}
+	}
 	// completeness: every active host of the kind is eligible and acks
 	supply, allEligible := 0, true
 	for i, vi := range c.pop {
